@@ -250,11 +250,18 @@ def rule_pickle_state(ctx: Ctx) -> None:
             excluded |= {e.value for e in c.comparators[0].elts if isinstance(e, ast.Constant)}
     stored = {t.slice.value for s in walk_no_nested(gs.node) if isinstance(s, ast.Assign) for t in s.targets if isinstance(t, ast.Subscript) and norm(t.value) == "state" and isinstance(t.slice, ast.Constant)}
     restored = {t.attr for s in walk_no_nested(ss.node) if isinstance(s, ast.Assign) for t in s.targets if isinstance(t, ast.Attribute) and norm(t.value) == "self"}
+    # ... or through a working copy of the state that is installed as a whole (`restored["func"] = loads(...)`; `self.__dict__.update(restored)`)
+    installed = {norm(c.args[0]) for c in ast.walk(ss.node) if isinstance(c, ast.Call) and isinstance(c.func, ast.Attribute) and c.func.attr == "update" and norm(c.func.value) in ("self.__dict__", "vars(self)") and len(c.args) == 1 and isinstance(c.args[0], ast.Name)}
+    installed |= {norm(lp.iter.func.value) for lp in ast.walk(ss.node) if isinstance(lp, ast.For) and isinstance(lp.iter, ast.Call) and isinstance(lp.iter.func, ast.Attribute) and lp.iter.func.attr == "items" and isinstance(lp.iter.func.value, ast.Name)
+                  and any(isinstance(c, ast.Call) and dotted(c.func) in ("setattr", "object.__setattr__") for c in ast.walk(lp))}
+    via_copy = {t.slice.value: s.value for s in walk_no_nested(ss.node) if isinstance(s, ast.Assign) for t in s.targets if isinstance(t, ast.Subscript) and isinstance(t.slice, ast.Constant) and norm(t.value) in installed}
+    restored |= set(via_copy)
     lost = sorted((excluded | stored) - restored)
     ctx.tri("5-pickle-state", ss, ss.node, bool(excluded) and not lost, bool(lost), f"{sorted(excluded)} are dropped/encoded by __getstate__ and restored by __setstate__",
             f"__getstate__ drops/encodes {sorted(excluded | stored)} but __setstate__ never restores {lost}: an unpickled function lacks them", "state handling not recognised", key="PipeFunc")
     enc = {k: norm(v) for s in walk_no_nested(gs.node) if isinstance(s, ast.Assign) for t in s.targets if isinstance(t, ast.Subscript) and isinstance(t.slice, ast.Constant) for k, v in [(t.slice.value, s.value)]}
     dec = {t.attr: norm(s.value) for s in walk_no_nested(ss.node) if isinstance(s, ast.Assign) for t in s.targets if isinstance(t, ast.Attribute)}
+    dec.update({k: norm(v) for k, v in via_copy.items()})
     asym = [k for k in set(enc) | set(dec) if ("dumps" in enc.get(k, "")) != ("loads" in dec.get(k, "")) and (k in enc or "loads" in dec.get(k, ""))]
     ctx.tri("5-pickle-state", gs, gs.node, bool(enc) and not asym, bool(asym), "what is dumps()-encoded on the way out is loads()-decoded on the way in", f"{sorted(asym)}: encoded with dumps but not decoded with loads (or the reverse)", "codec not recognised", key="PipeFunc.codec")
     # `_pipelines` (the back-references through which a function invalidates the caches of the pipelines that contain it) is not
